@@ -11,7 +11,7 @@ exact retention, honest Read (DESIGN 3/C17).
     goroutine, RunCycleForVerif, frozen virtual clock): after every action the listing of <home>/logs and the bytes
     every file gained.  TLC's schedule "Log between the two halves of a rotation" is imposed with the
     `rotate.closed` gate; bursts of 8 goroutines are listed in the order the file itself gives them."""
-import re
+import copy, json, os, re
 import vf
 
 
@@ -23,6 +23,111 @@ def sensitivity(run):
     run.extra["model_sensitivity_former_design_refuted"] = dict(cfg="MC_FileLogger_asis.cfg", design="close the old file, then open the new one",
                                                               refuted="LinesWholeInOrder", states=r.get("distinct"), wall_s=r["wall"])
     vf.log("MC-SENS MC_FileLogger_asis.cfg refutes LinesWholeInOrder (line logged between close and reopen is lost)")
+
+
+def _names(obs):
+    return {bytes(x["n"]).decode("utf8", "replace"): x for x in obs["files"]}
+
+
+def _judge(run, outdir, spec, tag, events, expect_accept):
+    p = os.path.join(outdir, "_selftest_%s.ndjson" % tag)
+    open(p, "w").write("\n".join(json.dumps(e, separators=(",", ":")) for e in events) + "\n")
+    st = run.trace_states
+    acc, hwm, n, r = run.validate_file(spec, p)
+    run.trace_states = st
+    if acc != expect_accept:
+        raise vf.MachineryError("binding self-test %s: expected the trace specification to %s the history, it did the opposite (stopped at line %d of %d)"
+                                % (tag, "accept" if expect_accept else "reject", hwm, n))
+    return True
+
+
+def property_selftests(run, outdir, meta):
+    """Property-specific binding demonstration on prefixes of accepted histories: the unchanged prefix must be
+    accepted and each of these single changes of what was observed must be rejected:
+      retention: an expired own file reported as still there / a look-alike survivor reported as gone;
+      Read: one byte of the returned text changed / the reported offset moved by one / an answer turned into nil;
+      suppression: an emitted line reported as not written although no line with its id was emitted before."""
+    job = [j for j in meta.get("jobs", []) if j["spec"] == "Trace_FileLogger"][0]
+    hists = vf.split_histories(open(os.path.join(outdir, job["trace"])).read().splitlines())
+    spec = job["spec"]
+    res = {}
+
+    def of(gen):
+        for h in hists:
+            ev = [json.loads(x) for x in h]
+            if ev[0].get("gen") == gen:
+                yield ev
+
+    # ---- retention
+    for ev in of("retain"):
+        prev = None
+        for i, e in enumerate(ev):
+            if "obs" not in e:
+                continue
+            cur = _names(e["obs"])
+            if e["ev"] == "CycleA" and prev is not None and set(prev) - set(cur):
+                gone = sorted(set(prev) - set(cur))
+                surv = sorted(n for n in cur if n.endswith("-database.log") or n.endswith("-notadate.log") or n.endswith("20001340.log"))
+                if not surv:
+                    break
+                pre = ev[:i + 1]
+                _judge(run, outdir, spec, "retain_prefix", pre, True)
+                a = copy.deepcopy(pre)
+                back = dict(prev[gone[0]], add=[], whole=False)
+                a[-1]["obs"]["files"].append(back)
+                res["expired_file_reported_kept_rejected"] = _judge(run, outdir, spec, "retain_kept", a, False)
+                b = copy.deepcopy(pre)
+                b[-1]["obs"]["files"] = [x for x in b[-1]["obs"]["files"] if bytes(x["n"]).decode("utf8", "replace") != surv[0]]
+                res["survivor_reported_deleted_rejected"] = _judge(run, outdir, spec, "retain_extra", b, False)
+                res["retention_example"] = dict(expired=gone[0], survivor=surv[0])
+                break
+            prev = cur
+        if "survivor_reported_deleted_rejected" in res:
+            break
+    # ---- Read
+    for ev in of("read"):
+        for i, e in enumerate(ev):
+            if e["ev"] == "Read" and not e["res"]["nil"] and len(e["res"]["text"]) >= 2:
+                pre = ev[:i + 1]
+                _judge(run, outdir, spec, "read_prefix", pre, True)
+                a = copy.deepcopy(pre)
+                a[-1]["res"]["text"][-1] = (a[-1]["res"]["text"][-1] + 1) % 256
+                res["read_text_byte_changed_rejected"] = _judge(run, outdir, spec, "read_text", a, False)
+                b = copy.deepcopy(pre)
+                b[-1]["res"]["before"] += 1
+                res["read_offset_moved_rejected"] = _judge(run, outdir, spec, "read_before", b, False)
+                c = copy.deepcopy(pre)
+                c[-1]["res"] = {"nil": True}
+                res["read_answer_turned_nil_rejected"] = _judge(run, outdir, spec, "read_nil", c, False)
+                break
+        if "read_answer_turned_nil_rejected" in res:
+            break
+    # ---- suppression
+    for ev in of("gate"):
+        for i, e in enumerate(ev):
+            if e["ev"] != "Log" or e["kind"] not in ("E", "P"):
+                continue
+            adds = [x for x in e["obs"]["files"] if x["add"] and not x["whole"]]
+            if len(adds) != 1:
+                continue
+            pre = ev[:i + 1]
+            _judge(run, outdir, spec, "supp_prefix", pre, True)
+            a = copy.deepcopy(pre)
+            for x in a[-1]["obs"]["files"]:
+                if x["add"] and not x["whole"]:
+                    x["size"] -= len(x["add"])
+                    x["add"] = []
+            res["first_line_of_an_id_reported_suppressed_rejected"] = _judge(run, outdir, spec, "supp_first", a, False)
+            break
+        if "first_line_of_an_id_reported_suppressed_rejected" in res:
+            break
+    need = ["expired_file_reported_kept_rejected", "survivor_reported_deleted_rejected", "read_text_byte_changed_rejected",
+            "read_offset_moved_rejected", "read_answer_turned_nil_rejected", "first_line_of_an_id_reported_suppressed_rejected"]
+    missing = [k for k in need if not res.get(k)]
+    if missing:
+        raise vf.MachineryError("property self-tests found no suitable history for: %s" % missing)
+    run.selftests["Trace_FileLogger:property"] = res
+    vf.log("SELFTEST property-specific %s" % res)
 
 
 # actions that belong to the as-is design only (never enabled under Design = "repaired")
@@ -44,9 +149,9 @@ def body(run):
         vf.log("binding self-test skipped: the verdict pass already rejected real-code behaviour")
     else:
         run.selftest(out, meta, gen="gate", field="cur")
-        run.selftest(out, meta, gen="retain", field="keep")
-        run.selftest(out, meta, gen="read", field="res", removed=False)
         run.selftest(out, meta, gen="burst", field="seq")
+        run.selftest(out, meta, gen="race", field="raw")
+        property_selftests(run, out, meta)
     run.assumptions += [
         "the 10 s timer is replaced by RunCycleForVerif (one cycle on demand) and the constructor runs without the background goroutine; the clock is golib's own sync-time mode with its ticker stopped (dateutil.Now() = a value the harness sets), days 2001..2099",
         "the 20-byte time stamp the Go log package puts before every line is real wall-clock time: only its format is judged; the number of millisecond digits of the banner's own time stamp is left to C19",
